@@ -58,7 +58,7 @@ COPY_OPS = [
     ("input_object", "?", "ctx.inputs[0][0][0]"), ("bifurcate", "?Ḃ", "stack[0]"), ("dup_under_loop", "?:₀∷›(", "stack[0]"),
 ]
 # transformations applied to the top copy (sympy-free on python ints); u› is the python int 0
-TRANSFORMS = ["u›₀Ȧ", "s", "Ṙ", "U", "›", "₀p", "₀J", "Ḣ", "Ṫ", "f", "¦", "¯", "N", "d", "u›⁽›¨M", "λ+;Ḟ6Ẏ", "G_", "∑_", "Ṙs", "sṘ", "₀+", "t_", "h_", "y_", "÷", "ḣ_", "ṫ_", "u›₀Ȧ›", "su›₀Ȧ", "Ṙu›u Ȧ", "‹u›₀Ȧ", "L", "⁽+₀Ḟ3Ẏ_", "u›₀Ȧu›₁Ȧ"]
+TRANSFORMS = ["u›₀Ȧ", "s", "Ṙ", "U", "›", "₀p", "₀J", "Ḣ", "Ṫ", "f", "¦", "¯", "N", "d", "u›⁽›¨M", "λ+;Ḟ6Ẏ", "G_", "∑_", "Ṙs", "sṘ", "₀+", "t_", "h_", "y_", "÷", "ḣ_", "ṫ_", "u›₀Ȧ›", "su›₀Ȧ", "Ṙu›u Ȧ", "‹u›₀Ȧ", "L", "⁽+₀Ḟ3Ẏ_", "u›₀Ȧu›₁Ȧ", "u›:›\"⁽›¨M", "u›:›\"₀Ȧ", "u›:›\"⁽d¨M›"]
 
 
 def table():
